@@ -31,8 +31,8 @@ CLASSES = M.SINGLE + list(M.SINGLE_ROT) + M.CROSS + list(M.CROSS_ROT) + ["multi.
 
 
 @st.composite
-def strategy(draw):
-    cls = draw(st.sampled_from(CLASSES))
+def strategy(draw, cls=None):
+    cls = cls or draw(st.sampled_from(CLASSES))  # (the runner stratifies: every shard runs its slice of CLASSES, one class at a time)
     if cls == "multi.CCA":
         lay1 = draw(L.layout(max_sd=2, max_fd=2, min_samples=8, min_features=2, max_items=2, max_vars=2))
         lay2 = draw(L.layout(max_sd=1, max_fd=2, min_samples=1, min_features=2, max_items=2, max_vars=2))
